@@ -23,6 +23,19 @@ void main() { zc = 1; }
 '''
 
 
+
+class _ShardProc:
+    """one driver process on one shard file, stdout/stderr redirected to files next to it"""
+
+    def __init__(self, drv, fn):
+        self.fn = fn
+        self.p = subprocess.Popen(['bash', '-c', 'ulimit -s unlimited; exec "$0" "$1" > "$1.out" 2> "$1.err"', drv, fn])
+
+    def communicate(self, timeout=None):
+        self.p.wait(timeout=timeout)
+        self.returncode = self.p.returncode
+        return (open(self.fn + '.out', 'rb').read(), open(self.fn + '.err', 'rb').read())
+
 def memclass(m):
     if m.startswith('MemoryOnChip'):
         return 'MemoryOnChip'
@@ -171,8 +184,8 @@ def run_wf(text):
             fn = os.path.join(d, 'w%d.txt' % i)
             open(fn, 'w').write(''.join(recs[i::ns]))
             files.append(fn)
-        procs = [subprocess.Popen(['bash', '-c', 'ulimit -s unlimited; exec "$0" "$1"', drv, fn],
-                                  stdout=subprocess.PIPE, stderr=subprocess.PIPE) for fn in files]
+        # results go to files: a shard never waits on a full pipe while an earlier one is being read
+        procs = [_ShardProc(drv, fn) for fn in files]
         res = {}
         for p in procs:
             o, e = p.communicate(timeout=7200)
